@@ -196,7 +196,7 @@ Inductive tstep :=
 Record trace := mkTrace { t_init : init_msg; t_init_ok : bool; t_init_obs : obs; t_steps : list tstep }.
 
 Definition same_admins (st : state) (o : obs) : bool :=
-  nlist_eqb (admins st) (ob_admins o) && Bool.eqb (mutable_ st) (ob_mutable o).
+  nset_eqb (admins st) (ob_admins o) && Bool.eqb (mutable_ st) (ob_mutable o).   (* who is an admin, not how the list is stored *)
 Definition same_allow (st : state) (o : obs) : bool := list_eqb entry_eqb (allowances st) (ob_stored o).
 Definition same_perms (st : state) (o : obs) : bool := list_eqb pentry_eqb (permissions st) (ob_perms o).
 
